@@ -18,7 +18,7 @@ PROPS = {
         "level_text": "Generated-input search: tens of thousands (quick) to millions (thorough) of list pairs covering every alignment pattern named in the property; "
                       "each compared with an independent reference of the formula under both methods. No counter-example = no violation among the generated classes, not a proof.",
         "level_note": "trusted: the reference formula in the harness (set based, 30 lines), Go float64 arithmetic, rapid's generators; tolerance 1e-9 relative",
-        "expect_classes": {"lists": ["no matching gene", "excess and disjoint", "gene-less side", "different lengths with disjoint genes", "both genomes carry the same id"]},
+        "expect_classes": {"lists": ["no matching gene", "excess and disjoint", "gene-less side", "different lengths with disjoint genes", "both genomes carry the same id", "options carry a positive compatibility threshold"]},
     },
     "C18": {
         "run": "^TestC18",
@@ -31,7 +31,7 @@ PROPS = {
         "rule": "scalar: (type, x, y) with x,y from a mixture of uniform, log-uniform to 1e300, breakpoints and 1-3 ulp neighbours (y adjacent to x half of the time); "
                 "module: vectors of length 1-8; name: codes 0-255 and registered/mangled/random names; every case is non-trivial, distinct = distinct (type, high bits of x and y) / (type, len, high bits) / (code, name)",
         "assumptions": ["reference = closed forms written in the harness from the documented definitions", "inputs finite with |x| <= 1e300"],
-        "expect_classes": {"scalar": ["negative zero input", "huge input", "monotonicity pair"], "module": ["all entries below -9.3e18"], "name": ["registered code", "unregistered code", "registered name", "unknown name"]},
+        "expect_classes": {"scalar": ["negative zero input", "huge input", "monotonicity pair"], "module": ["all entries below -9.3e18"], "name": ["registered code", "unregistered code", "registered name", "unknown name"], "calls": ["several refused requests in one sequence"]},
     },
     "C19": {
         "run": "^TestC19",
@@ -44,7 +44,7 @@ PROPS = {
         "rule": "series: mixture of small-integer / uniform / wide-range / fitness-like values, ascending, descending or shuffled; non-trivial = non-empty and not ascending; "
                 "aggregates: non-trivial = at least 2 trials and 3 generations; distinct by (n, leading value, median) resp. (trials, generations, solved trials)",
         "assumptions": ["champions are non-nil (the record format has no presence marker and the library always sets one)", "fitness ties between champions admit any of the tied organisms"],
-        "expect_classes": {"series": ["empty series", "not ascending"], "aggregates": ["accessors called before the comparison", "solved trial", "solved and unsolved trials", "trial without generations", "no trials"]},
+        "expect_classes": {"series": ["empty series", "not ascending", "large common offset, small spread"], "aggregates": ["accessors called before the comparison", "solved trial", "solved and unsolved trials", "trial without generations", "no trials"]},
     },
     "C06": {
         "run": "^TestC06",
@@ -97,7 +97,7 @@ PROPS = {
         "rule": "G-net DAGs: 1-4 inputs, 0-3 bias, 0-8 hidden, 1-3 outputs, random topological order independent of ids, extra-link probability 0-0.6, weights in [-5,5] with occasional +-100; built from constructors or through Genesis; "
                 "non-trivial = a bias link moves an output by > 1e-6 and depth >= 2; distinct by (#in, #bias, #hidden, #out, #links, depth)",
         "assumptions": ["every neuron is reachable from a sensor and each ordered pair carries at most one link (as in every feed-forward genome)", "relaxation is run with the smallest positive delta and a budget of #neurons+2 steps; only the value, not the relaxed flag, is asserted"],
-        "expect_classes": {"dag": ["bias link moves an output by more than 1e-6", "several bias nodes", "depth >= 3", "network expressed from a genome", "network built from constructors", "second input vector on the same instances"]},
+        "expect_classes": {"dag": ["bias link moves an output by more than 1e-6", "several bias nodes", "depth >= 3", "network expressed from a genome", "network built from constructors", "second input vector on the same instances", "output list in another order than the node list"]},
     },
     "C13": {
         "run": "^TestC13",
@@ -149,7 +149,7 @@ PROPS = {
         "rule": "1-5 trials x 1-8 generations, per trial a solved generation or none, fault none/error/cancel at a generated point, observer present 3/4, Trials nil or pre-sized, sequential or parallel executor, population 3-8; "
                 "non-trivial = a trial solved before its last generation or a fault after a completed trial; distinct by the whole scenario tuple",
         "assumptions": ["after a fault only 'no further evaluation, no repeated notification, fault returned' is required; a cancellation in the very last planned generation may return nil"],
-        "expect_classes": {"protocol": ["fault:none", "fault:error", "fault:cancel", "evaluator error kind:canceled", "evaluator error kind:deadline", "with observer", "without observer", "parallel executor", "trial solved before the last generation", "fault after a completed trial"]},
+        "expect_classes": {"protocol": ["fault:none", "fault:error", "fault:cancel", "evaluator error kind:canceled", "evaluator error kind:deadline", "evaluator failed in the generation it reported solved", "pre-sized record longer than the configured number of trials", "with observer", "without observer", "parallel executor", "trial solved before the last generation", "fault after a completed trial"]},
     },
     "C01": {
         "run": "^TestC01",
